@@ -53,6 +53,8 @@ def check(repo, res, tier):
     l4a(repo, res, canon, logic)
     l4b(repo, res, canon, logic)
     l6(repo, res, canon)
+    l13(repo, res, canon)
+    l12(repo, res, canon)
     from . import defined
     res.rule('C05.L10', 'every attribute read through self in a reachable method has a definition somewhere (class family, '
                         'class body, store on another object): else AttributeError, the run does not complete')
@@ -239,6 +241,251 @@ def l2(repo, res):
                         what=what)
             else:
                 res.ok('C05.L2', f, lp, what, '%d cycle path(s)' % n_back)
+
+
+# ---------------------------------------------------------------------- L12
+def l12(repo, res, canon):
+    """An algorithm that draws its candidates from the ready pool must put the successors of every
+    task it proposes into that pool: nothing else ever adds them, so a task whose predecessor was
+    proposed without this is never offered and the workflow never ends."""
+    res.rule('C05.L12', 'an algorithm whose candidates come from task_pool adds graph.successors(t) of every task t it '
+                        'proposes to the pool (directly, through a set merged into the pool, or through a list of the '
+                        'proposed tasks walked afterwards)')
+    from .c03 import ALGS
+    from .c17 import map_stores, returned_map_name
+    n = 0
+    for q in ALGS:
+        f = repo.func(q)
+        fr = Frame(f)
+        pool = f.params[5] if len(f.params) > 5 else 'task_pool'
+        cand = None
+        for lp in [x for x in walk_no_nested(f.node) if isinstance(x, ast.For)]:
+            names = {y.id for y in ast.walk(lp.iter) if isinstance(y, ast.Name)}
+            al = {k for k in names if k in fr.aliases and any(
+                isinstance(y, ast.Name) and y.id == pool for y in ast.walk(fr.aliases[k]))}
+            if pool in names or al:
+                cand = lp
+                break
+        m = returned_map_name(f)
+        if cand is None or m is None:
+            res.ok('C05.L12', f, None, '%s does not draw its candidates from the ready pool' % q, 'rule does not apply')
+            continue
+        stores, _others = map_stores(f, m)
+        store_nodes = {id(s_[0]) for s_ in stores}
+        inside = {id(x) for x in ast.walk(cand)}
+
+        def succ_of(node, var):
+            return any(isinstance(x, ast.Call) and call_name(x) == 'successors' and x.args and isinstance(
+                x.args[0], ast.Name) and x.args[0].id == var for x in ast.walk(node))
+
+        def flows_to_pool(x):
+            if x == pool:
+                return True
+            for st in walk_no_nested(f.node):
+                if id(st) in inside:
+                    continue
+                if isinstance(st, ast.Call) and isinstance(st.func, ast.Attribute) and st.func.attr in ('update', 'extend') \
+                        and isinstance(st.func.value, ast.Name) and st.func.value.id == pool and st.args and isinstance(
+                            st.args[0], ast.Name) and st.args[0].id == x:
+                    return True
+                if isinstance(st, ast.AugAssign) and isinstance(st.op, ast.BitOr) and isinstance(st.target, ast.Name) \
+                        and st.target.id == pool and isinstance(st.value, ast.Name) and st.value.id == x:
+                    return True
+                if isinstance(st, ast.Assign) and any(isinstance(t, ast.Name) and t.id == pool for t in st.targets) and any(
+                        isinstance(y, ast.Name) and y.id == x for y in ast.walk(st.value)) and any(
+                            isinstance(y, ast.Name) and y.id == pool for y in ast.walk(st.value)):
+                    return True
+            return False
+        MUT = ('update', 'add', 'append', 'extend', 'appendleft', 'insert', 'union', 'setdefault')
+
+        def taint_of(e, taint):
+            out = set()
+            for x in ast.walk(e):
+                if isinstance(x, ast.Name) and x.id in taint:
+                    out |= taint[x.id]
+            for x in ast.walk(e):
+                if isinstance(x, ast.Call) and call_name(x) == 'successors' and x.args and any(
+                        isinstance(y, ast.Name) and 'task' in taint.get(y.id, ()) for y in ast.walk(x.args[0])):
+                    out.add('succ')
+            return out
+
+        def propagate(taint):
+            changed = True
+            rounds = 0
+            while changed and rounds < 12:
+                changed = False
+                rounds += 1
+                for st in walk_no_nested(f.node):
+                    pairs = []
+                    if isinstance(st, ast.Assign):
+                        t = taint_of(st.value, taint)
+                        for tg in st.targets:
+                            pairs += [(y.id, t) for y in ast.walk(tg) if isinstance(y, ast.Name)]
+                    elif isinstance(st, ast.AugAssign) and isinstance(st.target, ast.Name):
+                        pairs.append((st.target.id, taint_of(st.value, taint)))
+                    elif isinstance(st, (ast.For, ast.comprehension)):
+                        t = taint_of(st.iter, taint)
+                        pairs += [(y.id, t) for y in ast.walk(st.target) if isinstance(y, ast.Name)]
+                    elif isinstance(st, ast.Call) and isinstance(st.func, ast.Attribute) and st.func.attr in MUT \
+                            and isinstance(st.func.value, ast.Name):
+                        t = set()
+                        for a_ in list(st.args) + [k.value for k in st.keywords]:
+                            t |= taint_of(a_, taint)
+                        pairs.append((st.func.value.id, t))
+                    for nm, t in pairs:
+                        if t - taint.get(nm, set()):
+                            taint[nm] = taint.get(nm, set()) | t
+                            changed = True
+            return taint
+        ok, why, nseg = True, '', 0
+        for seg, how in iteration_segments(f, cand):
+            snodes = [e.node for e in seg if e.kind == 'stmt' and any(id(x) in store_nodes for x in ast.walk(e.node))]
+            if not snodes or how == 'raise':
+                continue
+            nseg += 1
+            key = None
+            for s_ in stores:
+                if any(s_[0] is x for sn in snodes for x in ast.walk(sn)):
+                    key = s_[1]
+            kv = key.id if isinstance(key, ast.Name) else None
+            # what this iteration hands on about the task it proposes: the task itself or its successors
+            taint = {}
+            if kv:
+                seed = {kv: {'task'}}
+                for e in seg:
+                    if e.kind != 'stmt':
+                        continue
+                    for x in ast.walk(e.node):
+                        if isinstance(x, ast.Call) and isinstance(x.func, ast.Attribute) and x.func.attr in MUT and isinstance(
+                                x.func.value, ast.Name) and x.func.value.id != m:
+                            t = set()
+                            for a_ in list(x.args) + [k.value for k in x.keywords]:
+                                t |= taint_of(a_, seed)
+                            if t:
+                                taint[x.func.value.id] = taint.get(x.func.value.id, set()) | t
+                        elif isinstance(x, ast.AugAssign) and isinstance(x.target, ast.Name):
+                            t = taint_of(x.value, seed)
+                            if t:
+                                taint[x.target.id] = taint.get(x.target.id, set()) | t
+                        elif isinstance(x, ast.Assign) and len(x.targets) == 1 and isinstance(x.targets[0], ast.Name) \
+                                and x.targets[0].id != kv:
+                            t = taint_of(x.value, seed)
+                            if t:
+                                taint[x.targets[0].id] = taint.get(x.targets[0].id, set()) | t
+            fed = 'succ' in propagate(taint).get(pool, set())
+            if not fed:
+                ok, why = False, ('%s proposes a task on a path that does not put graph.successors(task) into the ready pool: '
+                                  'its successors are never offered and the workflow never finishes' % q)
+        n += nseg
+        (res.ok if ok and nseg else res.bad)('C05.L12', f, cand, 'successors of every proposed task enter the ready pool (%s)' % q,
+                                             '%d proposing path(s)' % nseg if ok and nseg else why or 'no proposing path found')
+    if not n:
+        raise AnalysisError('no algorithm proposes from the ready pool (C05.L12 anchor moved)')
+
+
+# ---------------------------------------------------------------------- L13
+def l13(repo, res, canon):
+    """A process loop that can never be entered: the statements in front of it establish a fact
+    (a guard that raises unless `status is RUNNING`) that its test contradicts, or the test is the
+    constant False.  The process then ends at once and its actor never does anything."""
+    res.rule('C05.L13', 'the loop of a SimPy process can be entered: its test is not constant false and does not contradict '
+                        'what the guards in front of it have established')
+
+    def const_of(e):
+        if isinstance(e, ast.Constant):
+            return ('c', repr(e.value))
+        if isinstance(e, ast.Attribute) and isinstance(e.value, ast.Name) and e.value.id[:1].isupper():
+            return ('e', e.value.id, e.attr)          # Enum member
+        return None
+
+    def atom(t, pol, fr):
+        """(location, '==' or '!=', constant) for `X is/==/is not/!= C` with polarity applied"""
+        while isinstance(t, ast.UnaryOp) and isinstance(t.op, ast.Not):
+            t, pol = t.operand, not pol
+        if isinstance(t, ast.Compare) and len(t.ops) == 1 and isinstance(t.ops[0], (ast.Is, ast.Eq, ast.IsNot, ast.NotEq)):
+            l, r = t.left, t.comparators[0]
+            if const_of(l) is not None and const_of(r) is None:
+                l, r = r, l
+            c = const_of(r)
+            if c is None or const_of(l) is not None:
+                return None
+            eq = isinstance(t.ops[0], (ast.Is, ast.Eq))
+            return canon.c(l, fr), '==' if eq == pol else '!=', c
+        return None
+
+    def value(t, facts, fr):
+        """True / False / None (unknown) of test t under the facts"""
+        if isinstance(t, ast.Constant):
+            return bool(t.value)
+        if isinstance(t, ast.UnaryOp) and isinstance(t.op, ast.Not):
+            v = value(t.operand, facts, fr)
+            return None if v is None else not v
+        if isinstance(t, ast.BoolOp):
+            vs = [value(x, facts, fr) for x in t.values]
+            if isinstance(t.op, ast.And):
+                return False if any(v is False for v in vs) else (True if all(v is True for v in vs) else None)
+            return True if any(v is True for v in vs) else (False if all(v is False for v in vs) else None)
+        a = atom(t, True, fr)
+        if a is None:
+            return None
+        loc, op, c = a
+        for (floc, fop, fc) in facts:
+            if floc != loc:
+                continue
+            if fop == '==':
+                same = fc == c
+                return same if op == '==' else not same
+            if fop == '!=' and fc == c:
+                return op == '!='
+        return None
+    n = 0
+    for f in repo.all_functions():
+        if not f.is_generator or f.module.name.startswith(('topsim.utils', 'topsim.recipes')):
+            continue
+        top = [st for st in f.node.body if isinstance(st, ast.While)]
+        for lp in top:
+            n += 1
+            dead = None
+            if isinstance(lp.test, ast.Constant) and not lp.test.value:
+                dead = 'its test is the constant %r' % lp.test.value
+            else:
+                verdicts = []
+                for p in cached_paths(f):
+                    idx = [i for i, e in enumerate(p.events) if e.kind == 'loop' and e.node is lp]
+                    if not idx:
+                        continue
+                    facts = []
+                    for e in p.events[:idx[0]]:
+                        if e.kind == 'test':
+                            a = atom(e.node, bool(e.pol), e.frame)
+                            if a is not None:
+                                facts.append(a)
+                        elif e.kind == 'stmt' and e.node is not None:
+                            # an assignment to the location or any call/yield may change it
+                            if any(isinstance(x, (ast.Call, ast.Yield, ast.YieldFrom, ast.Await)) for x in ast.walk(e.node)) \
+                                    and not _is_logging_stmt(e.node):
+                                facts = []
+                            elif isinstance(e.node, (ast.Assign, ast.AugAssign)):
+                                tg = e.node.targets if isinstance(e.node, ast.Assign) else [e.node.target]
+                                locs = {canon.c(t, e.frame) for t in tg}
+                                facts = [a for a in facts if a[0] not in locs]
+                    verdicts.append(value(lp.test, facts, p.events[idx[0]].frame or Frame(f)))
+                if verdicts and all(v is False for v in verdicts):
+                    dead = 'the guards in front of it establish the opposite of its test `%s`' % short(ast.unparse(lp.test), 60)
+            what = 'loop of %s at line %d can be entered' % (f.qual, lp.lineno)
+            if dead:
+                res.bad('C05.L13', f, lp, 'dead process loop in %s' % f.qual,
+                        'the loop of this process can never be entered (%s): the process ends as soon as it is started and '
+                        'its actor never acts -- the simulation cannot complete' % dead, what=what)
+            else:
+                res.ok('C05.L13', f, lp, what)
+    if n < 5:
+        raise AnalysisError('only %d top-level process loops found (C05.L13 anchor moved)' % n)
+
+
+def _is_logging_stmt(st):
+    return isinstance(st, ast.Expr) and isinstance(st.value, ast.Call) and isinstance(st.value.func, ast.Attribute) \
+        and isinstance(st.value.func.value, ast.Name) and st.value.func.value.id.lower() in ('logger', 'logging', 'log')
 
 
 # ---------------------------------------------------------------------- L3
